@@ -353,6 +353,55 @@ InvRoundTrip == HeadHasCommit(st) => TreeWellFormed(Obj(st, HeadTree(st)))
 TreeRoundTrip(bt) == Flatten([st EXCEPT !.objs = Merge(st.objs, bt.objs)], bt.id) = IdxPairs(st.idx)
 InvTreeOf == TreeRoundTrip(BuildTree(IdxPairs(st.idx)))
 
+----------------------------------------------------------------------------
+(* Implementation-shaped transcriptions.  The step functions above say WHAT a command computes; the two       *)
+(* operators below transcribe HOW the code computes it, and TLC checks on every reachable state of every       *)
+(* instance that both agree.                                                                                   *)
+
+(* cmd/writeTree.go writeTreeObject: ONE pass over the byte-sorted staged entries, grouping runs with the same *)
+(* first path component into recursively written sub-trees; tree entries are appended in the order met, never *)
+(* sorted.  That the result is the Git-ordered nested tree (BuildTree) is the fact the single pass relies on. *)
+TreeRec(ents, below) ==
+    LET id == "t(" \o ConcatAll([i \in 1..Len(ents) |-> EntStr(ents[i])]) \o ")"
+    IN  [id |-> id, objs |-> Merge(below, Put(<<>>, id, [k |-> "tree", ok |-> TRUE, ents |-> ents]))]
+RECURSIVE WriteTreeImpl(_)
+RECURSIVE WTLoop(_, _, _, _, _, _)
+(* entries: sequence of [p, id]; i: next position; dirName ("" = none), buf: entries collected for dirName; *)
+(* data: tree entries appended so far; below: objects of the sub-trees written so far                       *)
+FlushDir(dirName, buf, data, below) ==
+    LET sub == WriteTreeImpl(buf)
+    IN  [data |-> Append(data, [m |-> "040000", n |-> dirName, id |-> sub.id]), below |-> Merge(below, sub.objs)]
+WTLoop(entries, i, dirName, buf, data, below) ==
+    IF i > Len(entries) THEN
+        (IF dirName # "" THEN LET f == FlushDir(dirName, buf, data, below) IN TreeRec(f.data, f.below)
+         ELSE TreeRec(data, below))
+    ELSE LET en == entries[i]
+             sp == Split(en.p) IN
+         IF sp[2] = "" THEN      \* entry is not in a sub-directory
+             (IF dirName # "" THEN
+                  LET f == FlushDir(dirName, buf, data, below) IN
+                  WTLoop(entries, i + 1, "", <<>>, Append(f.data, [m |-> "100644", n |-> en.p, id |-> en.id]), f.below)
+              ELSE WTLoop(entries, i + 1, "", <<>>, Append(data, [m |-> "100644", n |-> en.p, id |-> en.id]), below))
+         ELSE IF dirName = "" THEN WTLoop(entries, i + 1, sp[1], <<[p |-> sp[2], id |-> en.id]>>, data, below)
+         ELSE IF dirName = sp[1] THEN WTLoop(entries, i + 1, dirName, Append(buf, [p |-> sp[2], id |-> en.id]), data, below)
+         ELSE LET f == FlushDir(dirName, buf, data, below) IN
+              WTLoop(entries, i + 1, sp[1], <<[p |-> sp[2], id |-> en.id]>>, f.data, f.below)
+WriteTreeImpl(entries) == WTLoop(entries, 1, "", <<>>, <<>>, <<>>)
+
+SameTree(a, b) == a.id = b.id /\ a.objs = b.objs
+InvWriteTreeImpl == SameTree(WriteTreeImpl(st.idx.ents), BuildTree(IdxPairs(st.idx)))
+
+(* cmd/log.go walkHistory: FIFO queue seeded with HEAD, visited set, loop counter compared with maxCount. *)
+RECURSIVE LogLoop(_, _, _, _, _, _)
+LogLoop(s, queue, visited, counter, maxCount, out) ==
+    IF Len(queue) = 0 \/ counter + 1 > maxCount THEN out
+    ELSE LET cur == Head(queue) IN
+         IF cur \in visited THEN LogLoop(s, Tail(queue), visited, counter + 1, maxCount, out)
+         ELSE IF ~IsCommit(s, cur) THEN out
+         ELSE LogLoop(s, Tail(queue) \o Obj(s, cur).parents, visited \cup {cur}, counter + 1, maxCount, Append(out, cur))
+LogImpl(s, k) == LogLoop(s, <<HeadId(s)>>, {}, 0, k, <<>>)
+InvLogImpl == HeadHasCommit(st) => \A k \in 0..(nk + 2) : LogImpl(st, k) = TakeN(Chain(st, HeadId(st)), k)
+
 (* Edge emitter: one JSON line per generated transition, consumed by the tour replayer.  hist is the *)
 (* representative path of the source state (VIEW hides it), so the emitted paths are prefix-closed: *)
 (* the harness executes every edge exactly once by walking the trie of paths.  exp is what the      *)
